@@ -37,6 +37,14 @@ pub async fn run_case(c: Case) -> Result<CaseInfo, Failure> {
         if w.ended() {
             break;
         }
+        // inbound traffic makes the endpoint write responses (they share the write buffer with the sends); a response that
+        // falls due inside a streamed payload would end the connection (C08's subject): not generated here
+        if let Op::Inbound(_) = op {
+            let owed = w.streams.iter().any(|s| s.handle.is_some() && (s.accepted.len() as u32) < s.declared) || w.partial_pub_out;
+            if owed {
+                continue;
+            }
+        }
         // at most one streamed publish per history (a second one is refused while the first owes payload)
         if matches!(op, Op::StreamStart { .. }) && !w.streams.is_empty() {
             continue;
@@ -60,6 +68,7 @@ pub async fn run_case(c: Case) -> Result<CaseInfo, Failure> {
             Op::Window(o) => 7 + u8::from(*o),
             Op::StreamStart { qos, .. } => 10 + qos % 2,
             Op::Chunk { .. } => 12,
+            Op::Inbound(k) => 13 + k % 4,
             _ => 0,
         });
         w.apply(*op).await.map_err(|f| fail(&c, &f.rule, f.detail))?;
@@ -185,6 +194,7 @@ fn op_strategy() -> BoxedStrategy<Op> {
         1 => Just(Op::Settle),
         1 => any::<u8>().prop_map(Op::Release),
         2 => Just(Op::Send { kind: SendKind::Qos0, again: false, own_id: 0 }),
+        2 => (0u8..4).prop_map(Op::Inbound),
         1 => (0u8..2).prop_map(|qos| Op::StreamStart { qos, declared: 200, bad: 0 }),
         3 => prop::sample::select(vec![1u8, 2, 2, 3, 5]).prop_map(|len| Op::Chunk { stream: 0, len }),
     ]
@@ -208,7 +218,7 @@ pub fn run(ctx: &Ctx, started: Instant) -> i32 {
     });
     let report = Report {
         level: "exploration",
-        rule: "histories of 3..25 ops for send limits 1..3: create(+poll) sink futures (QoS1, QoS2, subscribe, unsubscribe, ready(); some 'send again on completion'), QoS 0 sends (build back-pressure without taking a slot), at most one streamed publish of 200 bytes (QoS 0/1) with chunks of 1/3/half/all owed bytes, poll in any order, drop arbitrary owned futures (parked, woken-but-unpolled), \
+        rule: "histories of 3..25 ops for send limits 1..3: create(+poll) sink futures (QoS1, QoS2, subscribe, unsubscribe, ready(); some 'send again on completion'), QoS 0 sends (build back-pressure without taking a slot), inbound PUBLISH / PINGREQ / SUBSCRIBE whose responses share the write buffer, at most one streamed publish of 200 bytes (QoS 0/1) with chunks of 1/3/half/all owed bytes, poll in any order, drop arbitrary owned futures (parked, woken-but-unpolled), \
                correct peer acknowledgements singly or batched, peer window stall/release at any step (64-byte write watermark). Final phase: lift the stall, release held QoS 2 receipts, acknowledge everything on the wire, poll every survivor, repeat until \
                nothing changes. Final phase also supplies every owed payload byte. Oracle: at that quiescence no surviving future is pending while fewer than `limit` packets are outstanding and back-pressure is off; no payload chunk future is pending while back-pressure is off and its PUBLISH header is out; no surviving future failed; the connection is alive. \
                Non-trivial = a parked waiter was cancelled, back-pressure was lifted on a full window, an ack batch >1 arrived with waiters parked, or a payload chunk was paused by back-pressure; distinct = (role, limit, op-kind trace)"
